@@ -75,6 +75,12 @@ def enumerate_cases(tier, scope):
             for via in ('direct', 'comm'):
                 for op in (['create', 'U', 1, True], ['launch', 'U', 1, True, False], ['launch', 'U', 1, True, True], ['launch', 'U', 1, False, False], ['create', 'U', 1, False]):
                     yield {'persister': p, 'loader': 'registry', 'via': via, 'load_context': 'none', 'ops': [op, ['continue', 1, None, False]]}
+                for nowait in (False, True):
+                    yield {'persister': p, 'loader': 'registry', 'via': via, 'load_context': 'none', 'ops': [['execute', 'U', 1, nowait, False]]}
+                # a pid that is falsy is a pid
+                for first in (['launch', 'W', 0, True, True], ['create', 'W', 0, True], ['launch', 'F', 0, True, False]):
+                    for loader in ('default', 'custom'):
+                        yield {'persister': p, 'loader': loader, 'via': via, 'load_context': 'none', 'ops': [first, ['continue', 0, None, False]]}
     singles = []
     for prog in PROGS:
         for persist in (False, True):
@@ -102,6 +108,9 @@ def enumerate_cases(tier, scope):
             for first in firsts:
                 for second in seconds:
                     yield {'persister': cfg[0], 'loader': cfg[1], 'via': cfg[2], 'load_context': cfg[3], 'ops': [first] + second}
+                    if cfg[2] == 'comm' and cfg[3] == 'none':
+                        for client in ('thread', 'async'):
+                            yield {'persister': cfg[0], 'loader': cfg[1], 'via': cfg[2], 'load_context': cfg[3], 'client': client, 'ops': [first] + second}
                     if second is seconds[0] and cfg[2] == 'direct':
                         yield {'persister': cfg[0], 'loader': cfg[1], 'via': cfg[2], 'load_context': cfg[3], 'launcher_loop': 'none', 'ops': [first] + second}
 
@@ -133,6 +142,7 @@ def _cases(draw, tier):
         'via': draw(st.sampled_from(['direct', 'comm'])),
         'load_context': draw(st.sampled_from(['none', 'given'])),
         'launcher_loop': draw(st.sampled_from(['given', 'none'])),
+        'client': draw(st.sampled_from([None, None, 'thread', 'async'])),
         'ops': ops,
     }
 
@@ -189,7 +199,8 @@ def execute(case):
             launcher = process_comms.ProcessLauncher(loop=None if case.get('launcher_loop') == 'none' else loop, persister=persister, load_context=load_context, loader=loader)
             comm = None
             if case['via'] == 'comm':
-                comm = communications.LoopCommunicator(ConfirmingCommunicator(), loop)
+                inner_comm = ConfirmingCommunicator()
+                comm = communications.LoopCommunicator(inner_comm, loop)
                 comm.add_task_subscriber(launcher)
         classes_by_prog = {name: make_class(prog) for name, prog in PROGS.items()}
         # a process class that cannot be imported by name (made by a factory): only the launcher's registry loader knows it
@@ -295,7 +306,20 @@ def execute(case):
             elif kind == 'continue':
                 pid, tag, nowait = op[1], op[2], op[3]
                 classes.add('continue')
-                fut = send(process_comms.create_continue_body(pid, tag=tag, nowait=nowait))
+                client = case.get('client') if comm is not None else None
+                if client == 'thread':
+                    # the task is sent by the library's own client for synchronous code
+                    classes.add('client:thread-controller')
+                    with loop.as_running():
+                        fut = process_comms.RemoteProcessThreadController(inner_comm).continue_process(pid, tag=tag, nowait=nowait)
+                elif client == 'async':
+                    # ... or by its client for coroutines
+                    classes.add('client:controller')
+                    with loop.as_running():
+                        fut = loop.create_task(process_comms.RemoteProcessController(comm).continue_process(pid, tag=tag, nowait=nowait))
+                        fut._pv_owned = True
+                else:
+                    fut = send(process_comms.create_continue_body(pid, tag=tag, nowait=nowait))
                 key = (pid, tag)
                 if persister is None:
                     run_until(lambda: _fut_outcome(fut)[0] != 'pending')
@@ -369,7 +393,13 @@ def execute(case):
                 loop.drain()
                 new = known_instances()[before:]
                 created = [p for p in new if p.state.value == 'created' and not any(e['k'] == 'enter' and e['oid'] == id(p) for e in w.trace.get(p.pid, []))]
-                if len(new) != 2 or len(created) != 1:
+                if prog == 'U':
+                    # the class is named by the loader handed to execute_process(): the create part works (the continue
+                    # part depends on whether the persister can name the class, which is not judged here)
+                    if len(created) != 1:
+                        outcome = task.exception() if task.done() and not task.cancelled() else None
+                        v('execute-loader-dropped', f'{where}: no process was created for a class that only the given loader can name ({outcome!r})')
+                elif len(new) != 2 or len(created) != 1:
                     v('execute-instances', f'{where}: expected one created and one continued instance, got {[(p.pid, p.state.value) for p in new]}')
                 else:
                     runner = [p for p in new if p is not created[0]][0]
